@@ -89,11 +89,17 @@ def check_next_frame(run, cx, cfg):
         # (both are true for a lone output, which must pop what it pushed).
         anys = [(k, e) for k, e in evs if is_call(e, ITER, 'any') or is_call(e, ITER, 'all')]
         vals = [(k, e) for k, e in evs if rp(e) == BT + 'values' and e['args'][0] == ('ref', self_loc(fi))]
+        # third idiom: values().min().map_or(true, |&m| m > fr) -- no other output, or even the slowest other one is ahead
+        mins = [(k, e) for k, e in evs if is_call(e, ITER, 'min') and vals and e['args'][0] == ('ret', vals[0][0])]
+        mo = [(k, e) for k, e in evs if rp(e) == 'core::option::Option::<T>::map_or' and mins and e['args'][0] == ('ret', mins[0][0])]
+        via_min = not anys and len(mins) == 1 and len(mo) == 1 and mo[0][1]['args'][1] == ('bool', True)
+        if via_min:
+            anys = [(mo[0][0], dict(mo[0][1], name='all', args=[None, mo[0][1]['args'][2]]))]
         if len(anys) != 1 or len(vals) != 1 or vals[0][0] < rem[0][0]:
             bad = ('least-reader test must scan frames_read.values() with any/all after this output\'s own offset was removed (a lone output must count as the least reader, '
                    'otherwise its backlog grows without bound)')
             break
-        is_all = anys[0][1]['name'] == 'all'
+        is_all = anys[0][1]['name'] == 'all'       # (the min idiom reads like all(): true exactly when every other offset is greater)
         clo = anys[0][1]['args'][1]
         if not (clo[0] == 'agg' and clo[1][0] == 'closure'):
             bad = 'least-reader predicate is not a closure'
@@ -185,6 +191,8 @@ def check_send(run, cx, cfg):
                 nk = w.get((node[0], node[1] + (('f', ki),)))
                 old_key_ok = key[0] == 'field' and key[2] == ki
                 r = p['ret']
+                if nk is not None and nk[0] == 'field' and nk[2] == 0 and nk[1][0] == 'app' and nk[1][1].endswith('overflowing_add'):
+                    nk = ('app', nk[1][1].replace('overflowing_add', 'wrapping_add')) + tuple(nk[1][2:])     # overflowing_add(..).0 is wrapping_add(..)
                 if not old_key_ok or nk is None or not (nk[0] == 'app' and nk[1].endswith('wrapping_add') and nk[2] == (key, ('int', 1, 'usize'))):
                     bad = 'the key must be the old next_key and next_key must advance by one'
                 elif not (r[0] == 'agg' and r[1][1] == 'dasp_signal::bus::Output' and r[2][cx.field_index('dasp_signal::bus::Output', 'key')] == key):
@@ -267,7 +275,11 @@ def check_misc(run, cx, cfg, only=None):
                 if pops or len(evs) != 4:
                     bad = 'with least == 0 nothing may be trimmed'
                 kinds.add('nothing')
-            elif lo >= 1:
+            elif lo >= 1 or (lo == 0 and hi == float('inf')):
+                if lo == 0:
+                    # no guard at all: `for _ in 0..least` does not run for least == 0 and rebasing by 0 changes nothing, so the
+                    # conditions below cover that case as well
+                    kinds.add('nothing')
                 if p['end'] == 'return':
                     kinds.add('done')
                 else:
@@ -334,12 +346,41 @@ def check_misc_tail(run, cx, cfg, want):
         run.check(ok, 'bus.output-next', fn, cfg, 'Output::next must be node.next_frame(self.key)', where=where(body))
 
 
+# who may change which part of the shared state.  Keys are unique because only `send` ever advances `next_key`; the
+# backlog and the offsets move only in the three functions whose steps the rules above describe.
+WRITERS = {
+    'next_key': ('dasp_signal::bus::Bus::<S>::send',),
+    'frames_read': ('dasp_signal::bus::Bus::<S>::send', NODE + '::<S>::drop_output', NODE + '::<S>::next_frame'),
+    'buffer': (NODE + '::<S>::drop_output', NODE + '::<S>::next_frame'),
+    'signal': (NODE + '::<S>::next_frame',),
+}
+
+
+def check_writers(run, cx, cfg):
+    facts = cx.facts
+    for name, allowed in sorted(WRITERS.items()):
+        idx = cx.field_index(NODE, name)
+        if idx is None:
+            run.fail('bus.writers', NODE + '.' + name, cfg, 'field not found')
+            continue
+        group = set()
+        for a in allowed:
+            group |= confined_helpers(facts, a)      # private helpers reachable only from an allowed writer act for it
+        ws = field_writers(facts, NODE, idx)
+        bad = sorted({(w[0].split('::{closure')[0], w[2]) for w in ws if w[0].split('::{closure')[0] not in group})
+        run.check(not bad, 'bus.writers', NODE + '.' + name, cfg,
+                  'written (%s) outside the functions whose steps are verified: %s; allowed: %s' % (', '.join(sorted({k for _, k in bad})), ', '.join(f for f, _ in bad), ', '.join(allowed)),
+                  where=where(cx.body(bad[0][0])) if bad and cx.body(bad[0][0]) else None)
+        run.analysed['bus.writers:%s sites' % name] = len(ws)
+    run.floor('bus.writers', 'write / mutable-borrow sites of SharedNode fields', sum(run.analysed.get('bus.writers:%s sites' % n, 0) for n in WRITERS), 8)
+
+
 def run(run, tier, loadcfg):
     run.rule_text = 'one instance per (function x rule); each is a conjunction of structural conditions over all acyclic paths'
     run.explanation = ('send registers frames_read[key] = buffer.len() under a fresh key; next_frame: remove(key) ... insert(key, _) on every return, source pulled exactly on the '
                        'path not(frames_read < len), once, frame appended and returned, otherwise buffer[frames_read]; pop_front iff no other offset <= this one (operator checked), with '
                        'every other offset decremented and the new offset frames_read (popped) or frames_read+1; pending_frames = len - offset; Drop exists and calls drop_output(key), '
-                       'which removes the key, trims min(remaining offsets, or len) frames and rebases; Output exhaustion. NOT decided: the history-level statement itself '
+                       'which removes the key, trims min(remaining offsets, or len) frames and rebases; Output exhaustion; who-may-write: next_key only in send (keys stay unique), offsets / backlog / source only in send, next_frame, drop_output and their private helpers. NOT decided: the history-level statement itself '
                        '(gap-free streams, backlog == slowest lag) — these are necessary conditions, the step to the invariant is DESIGN Appendix C.3 on paper.')
     run.assumptions = ['VecDeque / BTreeMap behave as documented', 'the backlog-length hook mentioned in the property is not needed by this technique and is not added']
     cfg = 'std-debug'
@@ -350,3 +391,4 @@ def run(run, tier, loadcfg):
     check_next_frame(run, cx, cfg)
     check_send(run, cx, cfg)
     check_misc(run, cx, cfg)
+    check_writers(run, cx, cfg)
